@@ -62,7 +62,7 @@ theorem trail_segsIns_afterComponent (ws : Char → Bool) (hsp : ws ' ' = true) 
 theorem trail_itemIns_at (ws : Char → Bool) (D1 D2 : List DocItem) (segs' segs : List SegX) (h : SegsIns ws segs' segs) :
     LRel (ItemIns ws) (D1 ++ .step segs' :: D2) (D1 ++ .step segs :: D2) := by
   have hrefl : ∀ D : List DocItem, LRel (ItemIns ws) D D := LRel.refl_of (fun _ => Or.inl rfl)
-  exact (hrefl D1).append (.cons (Or.inr ⟨segs', segs, rfl, rfl, h⟩) (hrefl D2))
+  exact (hrefl D1).append (.cons (Or.inr (Or.inl ⟨segs', segs, rfl, rfl, h⟩)) (hrefl D2))
 
 /-- inserting well-spelled filler into a well-spelled token list: the token in front must be
     complete in front of the filler, the filler complete in front of what follows -/
